@@ -363,37 +363,90 @@ theorem C15_sanitize_injective (Hn : Name → List UInt8) (hLen : ∀ x, (Hn x).
       | false => exact absurd (Or.inl (of_decide_eq_false hd)) hb
     rw [← ha', ← hb', h]
 
-/-- Keys never contain a path separator or NUL and are at most 64 bytes long, so a partition file name is a single
-    path component of at most 5 + 1 + 64 + 5 bytes (plus extra id digits).  `hU`: what the Unicode class does on
-    non-ASCII scalars is irrelevant here because `/` and NUL are ASCII. -/
+/-- Keys never contain a path separator or NUL and are at most `max(bound of is_filesystem_safe, 64)` bytes long (a
+    safe name is at most `fsSafeMaxBytes` bytes — the literal comes from the Rust source —, a digest is 64 hex digits).
+    `U`: what the Unicode class does on non-ASCII scalars is irrelevant here because `/` and NUL are ASCII. -/
 theorem C15_key_safe {α} (Hn : Name → List UInt8) (U : Nat → Bool) (hLen : ∀ x, (Hn x).length = 32) (max : Nat)
     (cols : List (Col α)) :
-    ∀ m ∈ (subpartition Hn U max cols).1, 47 ∉ m.key ∧ 0 ∉ m.key ∧ byteLen m.key ≤ 64 := by
-  have hkey : ∀ last, 47 ∉ keyOf Hn U last ∧ 0 ∉ keyOf Hn U last ∧ byteLen (keyOf Hn U last) ≤ 64 := by
+    ∀ m ∈ (subpartition Hn U max cols).1, 47 ∉ m.key ∧ 0 ∉ m.key ∧
+      byteLen m.key ≤ Nat.max LM.Gen.RoutingConsts.fsSafeMaxBytes 64 := by
+  have hkey : ∀ last, 47 ∉ keyOf Hn U last ∧ 0 ∉ keyOf Hn U last ∧
+      byteLen (keyOf Hn U last) ≤ Nat.max LM.Gen.RoutingConsts.fsSafeMaxBytes 64 := by
     intro last
     unfold keyOf
     split
     · rename_i hs
       unfold isFilesystemSafe at hs
       simp only [Bool.and_eq_true, decide_eq_true_eq, List.all_eq_true] at hs
-      refine ⟨?_, ?_, hs.1⟩
+      refine ⟨?_, ?_, Nat.le_trans hs.1 (Nat.le_max_left _ _)⟩
       · intro hm; have := hs.2 47 hm; simp [safeChar] at this
       · intro hm; have := hs.2 0 hm; simp [safeChar] at this
     · have hh := hexName_isHex (Hn last)
       refine ⟨?_, ?_, ?_⟩
       · intro hm; have := hh 47 hm; unfold isHex at this; omega
       · intro hm; have := hh 0 hm; unfold isHex at this; omega
-      · rw [byteLen_allowed _ (fun x hx => isHex_allowed (hh x hx)), hexName_length, hLen]; omega
+      · rw [byteLen_allowed _ (fun x hx => isHex_allowed (hh x hx)), hexName_length, hLen]
+        exact Nat.le_max_right _ _
   intro m hm
   by_cases h : ∃ g, groupGo max (sortCols cols) [] 0 = [g]
   · obtain ⟨g, hg⟩ := h
     rw [subpartition_single Hn U max cols g hg] at hm
     simp at hm; subst hm
-    simp [allKey, byteLen, utf8Len]
+    refine ⟨by simp [allKey], by simp [allKey], ?_⟩
+    have : byteLen allKey = 3 := by simp [allKey, byteLen, utf8Len]
+    rw [this]
+    exact Nat.le_trans (by decide : 3 ≤ 64) (Nat.le_max_right _ _)
   · rw [subpartition_multi Hn U max cols (fun g hg => h ⟨g, hg⟩)] at hm
     simp only [List.mem_map] at hm
     obtain ⟨g, _, rfl⟩ := hm
     exact hkey _
+
+/-- FILE NAMES FIT.  Every partition file name `{:05}_{key}.part` of any partition id below 2^64 is a single path
+    component of at most 255 bytes (20 digits + `_` + key + `.part`).  Depends on the bound of `is_filesystem_safe`
+    as extracted from the source: raising it beyond 229 breaks this theorem. -/
+theorem C15_filename_fits {α} (Hn : Name → List UInt8) (U : Nat → Bool) (hLen : ∀ x, (Hn x).length = 32) (max : Nat)
+    (cols : List (Col α)) (id : Nat) (hid : id < 2 ^ 64) :
+    ∀ m ∈ (subpartition Hn U max cols).1,
+      byteLen (partitionFilename id m.key) ≤ 255 ∧ 47 ∉ partitionFilename id m.key := by
+  intro m hm
+  obtain ⟨h47, _, hlen⟩ := C15_key_safe Hn U hLen max cols m hm
+  have hdig := pad5_isDigit _ (decDigits_isDigit id)
+  have hdl : (decDigits id).length ≤ 20 :=
+    decDigits_length_le 19 id (Nat.lt_of_lt_of_le hid (by decide))
+  have hpl := pad5_length_le (decDigits id)
+  have hk : Nat.max LM.Gen.RoutingConsts.fsSafeMaxBytes 64 = 64 := by decide
+  rw [hk] at hlen
+  constructor
+  · unfold partitionFilename
+    rw [byteLen_append, byteLen_append, byteLen_append, byteLen_digits _ hdig]
+    have h1 : byteLen [95] = 1 := by simp [byteLen, utf8Len]
+    have h2 : byteLen partSuffix = 5 := by simp [partSuffix, byteLen, utf8Len]
+    rw [h1, h2]; omega
+  · unfold partitionFilename
+    intro hmem
+    simp only [List.mem_append, List.mem_singleton] at hmem
+    rcases hmem with ((hd | h95) | hkey) | hs
+    · have := hdig 47 hd; unfold isDigit at this; omega
+    · omega
+    · exact h47 hkey
+    · simp [partSuffix] at hs
+
+/-- SOURCE CONSTANTS.  The textual facts extracted from the Rust source (comparison operators, character predicates,
+    trimmed characters, hash-form condition and format, file-name format, whitespace removed) are the ones the
+    hand-written model mirrors: `≤` in `is_filesystem_safe`, `safeChar`, `to_lowercase`, `lowerRetain`'s retained set,
+    `trimStart`'s `-`/`.`, `>` in the truncation, `sanitize`'s `name != table_name || name.is_empty()` and
+    `-<name>-<hex digest>`, `partitionFilename`'s `{:05}_{}.part`.  (The numeric literals 64 / 189 / 189 are used by the
+    model itself, see `Disk/Routing.lean`.)  A source edit that changes any of them fails this obligation. -/
+theorem C15_source_constants :
+    LM.Gen.RoutingConsts.fsSafeCmp = "<=" ∧
+    LM.Gen.RoutingConsts.fsSafeCharPred = "(c.is_alphanumeric()&&c.is_lowercase())||c=='_'" ∧
+    LM.Gen.RoutingConsts.tableNameLowercased = true ∧
+    LM.Gen.RoutingConsts.tableNameRetain = "c.is_ascii_alphanumeric()||c=='_'||c=='-'||c=='.'" ∧
+    LM.Gen.RoutingConsts.tableNameTrim = [45, 46] ∧
+    LM.Gen.RoutingConsts.tableNameTruncCmp = ">" ∧
+    LM.Gen.RoutingConsts.tableNameHashCond = "name!=table_name||name.is_empty()" ∧
+    LM.Gen.RoutingConsts.tableNameHashFormat = "-{}-{:x}" ∧
+    LM.Gen.RoutingConsts.partitionFilenameFormat = "{:05}_{}.part" := by decide
 
 /-- The directory name is never empty — full strength since fix b1e0b04 (before it, `sanitize_table_name("")` was `""`
     and the files of the empty-named table were written directly into `tables/`; finding C15-empty-table-name). -/
